@@ -1,1 +1,77 @@
-From TL Require Import Base.Base.
+(* C17 - sort returns a stable ordered permutation and leaves its input intact. *)
+(* Statements only; the proofs are in Proofs/Sort.v.  [msort rec fuel pred l] is   *)
+(* the routine `sort` runs (apply_prim PSort calls it with fuel S (length l)); the  *)
+(* predicate is any function value, applied through the interpreter instance rec.  *)
+From TL Require Import Base.Base Model.Reader Model.Printer Model.Store Model.Eval Model.Init.
+From Coq Require Import Permutation Sorted.
+From TL Require Import Proofs.Sort.
+
+(* for EVERY predicate - inconsistent, effectful, failing - a successful sort *)
+(* returns a permutation of the input: the same elements, same multiplicities *)
+Theorem C17_permutation : forall rec pred l s out s',
+  msort rec (S (List.length l)) pred l s = (Ok out, s') -> Permutation out l.
+Proof. intros rec pred l s out s'. apply msort_perm. Qed.
+
+(* the sort itself never gives up: the fuel S (length l) always suffices *)
+Theorem C17_terminates : forall rec pred,
+  (forall args s, fst (rec (TCall false pred args) s) <> Fuel) ->
+  forall l s, fst (msort rec (S (List.length l)) pred l s) <> Fuel.
+Proof. exact sort_terminates. Qed.
+
+(* it fails only with the predicate's own error and never panics by itself *)
+Theorem C17_fails_only_as_predicate : forall rec pred (Q : ekind -> Prop),
+  (forall args s e s', rec (TCall false pred args) s = (Err e, s') -> Q e) ->
+  (forall args s n s', rec (TCall false pred args) s <> (Panic n, s')) ->
+  forall fuel l s, match fst (msort rec fuel pred l s) with
+                   | Err e => Q e | Panic _ => False | _ => True end.
+Proof. exact msort_fail. Qed.
+
+(* a predicate that computes a strict weak ordering lt (asymmetric,        *)
+(* negatively transitive): the result is psort, the state is untouched,     *)
+(* no element is placed before one that lt orders ahead of it, and the      *)
+(* elements of every class of indistinguishable elements keep their order   *)
+Theorem C17_pure_predicate : forall rec pred lt,
+  (forall y x s, rec (TCall false pred (of_list [y; x] Nil)) s = (Ok (of_bool (lt y x)), s)) ->
+  forall l s, msort rec (S (List.length l)) pred l s = (Ok (psort lt (S (List.length l)) l), s).
+Proof. intros rec pred lt H l s. apply msort_pure; [assumption|lia]. Qed.
+
+Theorem C17_sorted : forall lt,
+  (forall a b, lt a b = true -> lt b a = false) ->
+  (forall a c, lt a c = true -> forall b, lt a b = true \/ lt b c = true) ->
+  forall l, StronglySorted (le lt) (psort lt (S (List.length l)) l).
+Proof. intros lt H1 H2 l. apply psort_sorted; [assumption|assumption|lia]. Qed.
+
+Theorem C17_stable : forall lt,
+  (forall a b, lt a b = true -> lt b a = false) ->
+  (forall a c, lt a c = true -> forall b, lt a b = true \/ lt b c = true) ->
+  forall x0 l, filter (eqv lt x0) (psort lt (S (List.length l)) l) = filter (eqv lt x0) l.
+Proof. intros lt H1 H2 x0 l. apply psort_stable; [assumption|assumption|lia]. Qed.
+
+Theorem C17_psort_permutation : forall lt fuel l, Permutation (psort lt fuel l) l.
+Proof. exact psort_perm. Qed.
+
+Print Assumptions C17_permutation. Print Assumptions C17_terminates.
+Print Assumptions C17_fails_only_as_predicate. Print Assumptions C17_pure_predicate.
+Print Assumptions C17_sorted. Print Assumptions C17_stable. Print Assumptions C17_psort_permutation.
+
+(* non-vacuity: through the interpreter, stable on pairs with equal keys, and *)
+(* the input variable afterwards                                              *)
+Definition F0 : fops :=
+  {| f_add := fun _ _ => 0%Z; f_sub := fun _ _ => 0%Z; f_mul := fun _ _ => 0%Z;
+     f_div := fun _ _ => 0%Z; f_rem := fun _ _ => 0%Z; f_pow := fun _ _ => 0%Z;
+     f_max := fun _ _ => 0%Z; f_min := fun _ _ => 0%Z; f_of_int := fun z => z;
+     f_to_int := fun z => z; f_round := fun z => z; f_trunc := fun z => z;
+     f_lt := Z.ltb; f_le := Z.leb; f_eq := Z.eqb; f_is_finite := fun _ => true;
+     f_to_dec := fun _ => []; f_of_dec := fun _ => None |}.
+Definition ev0 (p : string) := fst (eval_string F0 80 (s2t p) (init_state [] None)).
+Example C17_ex :
+  ev0 "(setq l '((2 . a) (1 . b) (2 . c) (1 . d))) (list (sort l (lambda (x y) (< (car x) (car y)))) l)"
+  = ev0 "'(((1 . b) (1 . d) (2 . a) (2 . c)) ((2 . a) (1 . b) (2 . c) (1 . d)))".
+Proof. vm_compute. reflexivity. Qed.
+Example C17_ex_err : ev0 "(sort '(1 2 3) (lambda (x y) (car x)))" = Err EType.
+Proof. vm_compute. reflexivity. Qed.
+
+Check C17_stable : forall lt,
+  (forall a b, lt a b = true -> lt b a = false) ->
+  (forall a c, lt a c = true -> forall b, lt a b = true \/ lt b c = true) ->
+  forall x0 l, filter (eqv lt x0) (psort lt (S (List.length l)) l) = filter (eqv lt x0) l.
